@@ -15,6 +15,10 @@ class PathLimit(BaseException):
     pass
 
 
+class PathEnd(BaseException):
+    """the path ends here by construction (end of an inductive-step path of a loop rule)"""
+
+
 class RaiseEx(Exception):
     """A Python-level exception raised by the interpreted program."""
 
@@ -477,6 +481,11 @@ class Explorer:
                 c.flush_side_conditions()
             except Infeasible:
                 pass
+            except PathEnd:
+                try:
+                    c.flush_side_conditions()
+                except Infeasible:
+                    pass
             except PathLimit as e:
                 self.record(Obligation(self.label + "/paths", "undecided", detail=str(e)))
             except Unsupported as e:
